@@ -141,3 +141,43 @@ extend("C17", "decoder-validates rule for endpoint IDs, dtn:none-is-zero, regexp
        "EndpointID.UnmarshalCbor succeeds only with CheckValid's verdict (what is accepted can be encoded again); only the integer 0 decodes as dtn:none; URI numbers have one text form.")
 extend("C20", "link-event must-pass rules with the other-session exemption, no-escape of DTLSR state",
        "Every peer appearance/disappearance reaches the link state, the change flag and the record stamp; a disappearance is ignored only while another active sender leads to the same peer; the live peers map never leaves the lock region (the broadcast block gets a copy).")
+
+# ---- rules added in seeding rounds 3/4 and audit round 2 (DESIGN.md §12, §14, §15)
+extend("C01", "pooled-object rule (an object taken from a sync.Pool is reset before its first use on every path); codec error discipline (no nil after a failed step)",
+       "A scratch object taken from a pool starts every use from a reset state; no codec returns nil on a path on which one of its steps failed.")
+extend("C02", "free-number search (restart on a hit, compared with every block), break-code-only-at-block-boundary, builder result shares no backing store with the builder",
+       "The break code ends a bundle only where a block may begin; the number chosen for a new block was compared with every block of the bundle; a built bundle's block slice does not alias the builder's.")
+extend("C03", "pooled-object rule shared with C01")
+extend("C04", "closable-channel rule (a send on a channel that some path closes sits behind a recover or a stop select), negotiated-size-not-raised (neverAbove) rule, library decoders sized by declared values (table, known finding)",
+       "The negotiated segment size is never raised above the peer's announcement after the handshake; a send on a channel that the shutdown closes cannot panic the node.",
+       "Known finding (not repaired): a received BBC transmission reaches ulikunitz/xz's reader, which allocates the dictionary size a block header declares (up to 4 GiB) and has no cap.")
+extend("C05", "failure-always-reported (every failed Send reaches ReportFailure), loop-variable capture rule for per-peer goroutines, constraints/properties persisted after each change, reception-path write-only-when-new (shared with C13)",
+       "Each failed transmission is reported to the algorithm with exactly its peer; a retention constraint changed in memory is written to the store before the function leaves; a received duplicate does not write the known bundle's record back.")
+extend("C06", "reception-time source rule, unsupported-blocks-removed on every transmission, free-number rule shared with C02")
+extend("C07", "listing-matches-delivery (Endpoints() and the recipient test read the same table), mux children under its lock, fragment-aware filing and confirmed hand-over (known findings)",
+       "An agent lists exactly the endpoints it delivers for, from one table.",
+       "Known findings (not repaired): a second fragment of a locally addressed bundle is never handed over (scrubbed-ID identity); AgentManager.Deliver reports success after an asynchronous send decided by an earlier HasEndpoint test.")
+extend("C08", "part-file lockset (every file operation of a part under the store mutex together with its record), write-errors-not-dropped (Flush/Sync/Close of a written file), removed-parts-not-overwritten, Update keeps the stored parts, part-file names tagged by kind",
+       "File and record of a part change under one lock; a failed write of a part file fails the Push; Store.Update writes metadata only and keeps the stored Fragmented/Parts; a whole bundle's file name cannot equal a fragment's.")
+extend("C09", "file-name-from-recorded-length, sorted-by-offset premise of reassembly")
+extend("C10", "write-errors-not-dropped and part-file lockset shared with C08")
+extend("C11", "peer MRU chain not raised (shared with C04), acknowledgement of the END segment only after the data was accepted as a bundle, refusal on the unacceptable branch, codec error discipline for the TCPCLv4 packages",
+       "The END segment is acknowledged only after ToBundle()==nil and an unacceptable transfer is answered by XFER_REFUSE: the sender's success stands for a bundle the receiver took.")
+extend("C12", "field-buffer-reset (a buffer kept in the adapter is reset before each use), MTCP frame bounded by the announced length and drained, refused bundle skipped, closable-channel sends",
+       "The MTCP server parses a bundle from exactly the announced bytes and keeps serving the connection after a refused bundle; a reused send buffer never carries a previous bundle's bytes.")
+extend("C13", "dispatch-exclusive covers the algorithm consultation (DispatchingAllowed inside the reservation), notify-once, properties-persisted, reception-path Sync only for a new bundle, duplicate-reception previous node (known finding)",
+       "The algorithm is consulted only inside the per-bundle reservation; NotifyNewBundle is reached only for a bundle new to the node; the reception path never writes a known bundle's record back from an earlier copy.",
+       "Known finding (not repaired): the previous node of a second reception of a held bundle is not recorded; the bundle is offered to that peer.")
+extend("C14", "number-checked-against-store on every iteration of the assignment loop")
+extend("C15", "Send-result truthfulness (no ConvergenceSender.Send returns nil after a failed step), hand-over confirmation shared with C07 (known finding)",
+       "'forwarded' stands for a Send whose every step succeeded.",
+       "Known finding (not repaired): a 'delivered' report can be sent although the only client left before the hand-over.")
+extend("C16", "registry-key agreement for every access to the adapter registry, closed-while-starting re-test after the Store, always-removes, providers guarded",
+       "Every registry access is keyed by the adapter's Address() (or the key a Range handed out); an element stored by a registration that outlived Close is stopped by that registration.")
+extend("C17", "ReadMessage rule per decoder start: re-prepended byte or peek/unread on the same reader, never a buffered reader created for one call",
+       "Every decoder ReadMessage starts reads from a reader that begins with the dispatch byte, and no read-ahead is lost between two messages.")
+extend("C18", "notify-once shared with C13, constructor-helper view of the initial budget")
+extend("C19", "consistent-snapshot rule for the forwarding comparison, floating-point form rule (old + t, t>=0 / old * f, f in [0,1]) with constants resolved through helper parameters",
+       "The three updates are written in a form whose IEEE-754 evaluation is monotone in the required direction.")
+extend("C20", "own-record / purge-stamps-record, disappearance-after-deactivation, table replaced-or-pruned",
+       "A node never takes its own broadcast for received link-state data; every purge gives the record a newer stamp; a recomputation leaves no destination without a path in the table.")
